@@ -84,7 +84,9 @@ func (c *Collection) writeWithMeta(key string, body []byte, xattrs []byte, oldCa
 		return err
 	}
 	if e != nil {
+		verifPoint("post.before", e.cas)
 		c.postNewEvent(e)
+		verifPoint("post.after", e.cas)
 	}
 	return nil
 }
@@ -247,6 +249,7 @@ func (c *Collection) WriteUpdateWithXattrs(
 		if previous == nil {
 			// Get current doc if no previous doc was provided:
 			prevDoc, err := c.getRawWithXattrs(key, xattrKeys)
+			verifPoint("wuwx.read.done", key)
 			if err != nil {
 				if _, ok := err.(sgbucket.MissingError); !ok {
 					return 0, err
